@@ -718,6 +718,10 @@ def obj_fields : List String :=
 def obj_ptr_methods : List String :=
   ["Set"]
 
+/-- what each pointer-receiver method does with its receiver: writes / takes-address / passes-pointer / aliases / returns-pointer / calls:M, or reads-only -/
+def obj_ptr_effects : List String :=
+  ["Set:writes"]
+
 /-- `init` functions of the package (file:init) -/
 def pkg_inits : List String :=
   []
@@ -737,6 +741,14 @@ def pkg_writes : List String :=
 /-- function:variable.method for every method call on a package-level variable; function:go for goroutine starts -/
 def pkg_calls : List String :=
   ["ParseVector:splitPool.Get", "ParseVector:splitPool.Put"]
+
+/-- sync.Pool variables and what their `New` makes -/
+def pool_new : List String :=
+  ["splitPool:New=make([]string, 14)"]
+
+/-- every Get (with the canonical name of the variable that receives it) and Put (with what is handed back), in source order -/
+def pool_uses : List String :=
+  ["ParseVector:v0 := splitPool.Get()", "ParseVector:defer splitPool.Put(v0)"]
 
 /-- function:unsafe.X for every use of package unsafe -/
 def pkg_unsafe : List String :=
